@@ -303,6 +303,20 @@ def gen_carry(ctx: Ctx):
                     nreads += 1
                     if not any(a.index < g.index for a in assigned[v]):
                         continue  # only updated *after* this read: loop state by construction (GEN.undef checks that it is initialised)
+                    # lazy, loop-invariant value: every in-loop assignment sits under `if v is None:` and the right-hand side does not depend on the loop element
+                    # (`name = None; for f in xs: if name is None: name = func.get_name()`): carrying it over is the point
+                    lazy = True
+                    for a in assigned[v]:
+                        try:
+                            under_none = lin.under(a, f"{v} is None")
+                        except Exception:
+                            under_none = False
+                        rhs = getattr(a.node, "value", None)
+                        dep = rhs is None or any(isinstance(y, ast.Name) and y.id in ltargets for y in ast.walk(rhs))
+                        if not under_none or dep:
+                            lazy = False
+                    if lazy and assigned[v]:
+                        continue
                     cover = FALSE
                     for a in assigned[v]:
                         if a.index < g.index:
@@ -1170,6 +1184,28 @@ def c12_12(ctx: Ctx):
               key="emit_instruction::is-branch-direct-only")
 
 
+def _running_max_of_block_ends(repo, outer_q: str, name: str) -> bool:
+    """Is `name` (a local of the outer function, possibly `nonlocal` in a nested one) only ever assigned
+    `max(b.offset + b.size for b in <blocks>)` or `max(name, <x>.offset + <x>.size [...])`?  Then it *is* the greatest end offset."""
+    asgs = []
+    for q, f in repo.funcs.items():
+        if q == outer_q or q.startswith(outer_q + "."):
+            asgs += [n for n in walk_no_nested(f.node) if isinstance(n, ast.Assign) and any(isinstance(t, ast.Name) and t.id == name for t in n.targets)]
+    if not asgs:
+        return False
+    for a in asgs:
+        v = a.value
+        if not (isinstance(v, ast.Call) and isinstance(v.func, ast.Name) and v.func.id == "max"):
+            return False
+        t = src(v)
+        initial = "for " in t and ".blocks" in t and ".offset + " in t and ".size" in t
+        update = any(isinstance(arg, ast.Name) and arg.id == name for arg in v.args)   # max(name, <anything>): never below the true maximum it started from
+        if not (initial or update):
+            return False
+    return True
+
+
+
 @rule("C10.7", ["C10", "C05"], "join_byte_intervals: the padding block starts where the existing blocks end; the strictest alignment of an interval decides its padding", 2)
 def c10_7(ctx: Ctx):
     fi = ctx.repo.func("intervalutils.join_byte_intervals")
@@ -1181,7 +1217,8 @@ def c10_7(ctx: Ctx):
     if len(asg) != 1:
         raise AnalysisError("insert_padding: padding_block_offset not found")
     t = src(asg[0].value)
-    ok = "max(" in t and ".offset + " in t and ".size" in t and "destination.blocks" in t
+    ok = ("max(" in t and ".offset + " in t and ".size" in t and "destination.blocks" in t) or \
+        (isinstance(asg[0].value, ast.Name) and _running_max_of_block_ends(ctx.repo, "intervalutils.join_byte_intervals", asg[0].value.id))
     ctx.check(ok, ip, asg[0], "the cover block starts at the greatest end offset of the blocks already in the destination",
               f"the cover block starts at `{t}`, the end of the block with the greatest *start* offset: with nested/overlapping blocks (A=[2,8) containing B=[4,6)) it starts at 6 and covers "
               "A's bytes [6,8); two paddings in one join both start at the same offset and overlap each other (newly created blocks overlap)",
